@@ -1,6 +1,7 @@
 package props
 
 import (
+	"sync"
 	"fmt"
 	"go/ast"
 	"go/constant"
@@ -471,6 +472,8 @@ func goLits(body *ast.BlockStmt) []*ast.FuncLit {
 		if g, ok := n.(*ast.GoStmt); ok {
 			if l, ok := g.Call.Fun.(*ast.FuncLit); ok {
 				out = append(out, l)
+			} else if l := namedGoBody(g.Call); l != nil {
+				out = append(out, l)
 			}
 		}
 		return true
@@ -478,8 +481,48 @@ func goLits(body *ast.BlockStmt) []*ast.FuncLit {
 	return out
 }
 
+// namedGoBody: for `go f(…)` with f a function or method declared in the module, f's declaration presented as a
+// literal (one node per declaration) — a goroutine body is a goroutine body whether it is written in place or named.
+func namedGoBody(call *ast.CallExpr) *ast.FuncLit {
+	goBodyMu.Lock()
+	defer goBodyMu.Unlock()
+	var id *ast.Ident
+	switch f := core.Unparen(call.Fun).(type) {
+	case *ast.Ident:
+		id = f
+	case *ast.SelectorExpr:
+		id = f.Sel
+	}
+	if id == nil {
+		return nil
+	}
+	for prog, idx := range helperDecls {
+		_ = prog
+		for fobj, fr := range idx {
+			if fobj.Name() != id.Name || fr.Decl.Body == nil {
+				continue
+			}
+			if fr.Info().Uses[id] == fobj {
+				if l, ok := goBodyLits[fr.Decl]; ok {
+					return l
+				}
+				l := &ast.FuncLit{Type: fr.Decl.Type, Body: fr.Decl.Body}
+				goBodyLits[fr.Decl] = l
+				return l
+			}
+		}
+	}
+	return nil
+}
+
+var (
+	goBodyLits = map[*ast.FuncDecl]*ast.FuncLit{}
+	goBodyMu   sync.Mutex
+)
+
 func checkJSONReader(c *core.Ctx) {
 	p := c.Prog
+	helperInline(p, "", nil) // declaration index (named goroutine bodies)
 	fn := p.Func("datasources/json", "(*DatasourceExecuting).Run")
 	key := "datasources/json.(*DatasourceExecuting).Run/reader"
 	if fn == nil {
